@@ -1923,6 +1923,25 @@ class Machine:
         variant0 = None
         if spec.get("decreases") is not None and not is_for:
             variant0 = self.num(self.eval_spec(spec["decreases"], env))
+        # a second candidate measure read off the loop test itself (`a < b` -> b - a ...): auxiliary, used only to excuse a failing
+        # contract variant when the code was rewritten so that another measure decreases (see vcheck/decoder_props.py)
+        alt_expr, alt0 = None, None
+        if not is_for and isinstance(node.test, ast.Compare) and len(node.test.ops) == 1:
+            a, b, op = node.test.left, node.test.comparators[0], node.test.ops[0]
+            if isinstance(op, ast.Lt):
+                alt_expr = ast.BinOp(b, ast.Sub(), a)
+            elif isinstance(op, ast.LtE):
+                alt_expr = ast.BinOp(ast.BinOp(b, ast.Sub(), a), ast.Add(), ast.Constant(1))
+            elif isinstance(op, ast.Gt):
+                alt_expr = ast.BinOp(a, ast.Sub(), b)
+            elif isinstance(op, ast.GtE):
+                alt_expr = ast.BinOp(ast.BinOp(a, ast.Sub(), b), ast.Add(), ast.Constant(1))
+            if alt_expr is not None:
+                ast.fix_missing_locations(ast.Expression(alt_expr))
+                try:
+                    alt0 = self.num(self.eval(alt_expr, env))
+                except (Unsupported, RaiseEx):
+                    alt_expr = None
         # test
         if is_for:
             go = self.branch(simp(k < to_z3(N)), "%s.iter" % lid)
@@ -1970,6 +1989,16 @@ class Machine:
             finally:
                 self.overlay.pop()
         if variant0 is not None:
+            if alt_expr is not None:
+                try:
+                    a1 = self.num(self.eval(alt_expr, env))
+                    ga = simp(z3.And(to_z3(a1) < to_z3(alt0), to_z3(alt0) >= 0))
+                    ga = ga if isinstance(ga, bool) else ga
+                    va = "proved" if ga is True else solver.prove(self.pc, z3.BoolVal(ga) if isinstance(ga, bool) else ga, cheap=True)[0]
+                    self.obligations.append(Obligation("%s/%s/%s.variant.from-loop-test" % (self.unit["tag"], self.unit["name"], lid), va, "z3(aux)", 0.0,
+                                                       None, "auxiliary measure " + ast.unparse(alt_expr), ",".join(self.pathsig)))
+                except (Unsupported, RaiseEx):
+                    pass
             v1 = self.num(self.eval_spec(spec["decreases"], env))
             self.oblige("%s.variant.decreases" % lid, simp(z3.And(to_z3(v1) < to_z3(variant0), to_z3(variant0) >= 0)), detail=spec["decreases"])
         elif not is_for and self.unit.get("check_termination"):
